@@ -4,3 +4,5 @@ import ExecModel.Launcher
 import ExecModel.Props.C16
 import ExecModel.Preset
 import ExecModel.Props.C15
+import ExecModel.Wire
+import ExecModel.Props.C17
